@@ -20,11 +20,17 @@
 
   * `readHead k`   `http.ReadRequest(p.brw.Reader)`: the head and `k ≤ bufSize` following bytes leave
                    the socket; the `k` bytes stay in the reader (`held`);
-  * `replyRead n`  one socket read of the reply reader (head, then the `replyBody` bytes a
-                   `Content-Length` on the 2xx reply makes `res.Body.Close()` drain).  `dialvia.HTTPProxyDialer` reads through
-                   `bufio.NewReaderSize(byteReader{conn}, 128)` and `byteReader.Read` asks the
-                   connection for `p[:1]`: every read returns one byte (`replyGran = 1`), so the reader
-                   cannot have anything buffered when the blank line arrives;
+  * `replyRead n`  one socket read of the reply reader; it reads the reply *head* and nothing else.
+                   `dialvia.HTTPProxyDialer` reads through `bufio.NewReaderSize(byteReader{conn}, 128)`
+                   and `byteReader.Read` asks the connection for `p[:1]`: every read returns one byte
+                   (`replyGran = 1`), so the reader cannot have anything buffered when the blank line
+                   arrives.  A 2xx reply to CONNECT has no content whatever `Content-Length` /
+                   `Transfer-Encoding` it carries (RFC 9110 §9.3.6): `DialContextR` replaces the body
+                   `http.ReadResponse` built from those fields by `http.NoBody`, so `connectHTTP`'s
+                   `res.Body.Close()` reads nothing from the connection (it used to drain the declared
+                   content out of the tunnel: finding F29, repaired).  A non-2xx reply, whose content
+                   is real, is relayed to the client as the rejection and never becomes a tunnel: it
+                   is outside this machine;
   * `connected`    the dial returns.  `DialContextR` returns the *raw* `conn`, the reader `pbr` is
                    garbage: whatever it had buffered beyond the head is gone (`replyKeep = false`,
                    counted in `dropped`).  On the 101 path `net/http` hands over
@@ -64,11 +70,6 @@ structure Cfg where
   copyMax : Nat
   /-- length of the reply head the far side sends before tunnel data (0: direct dial, `ConnectFunc`) -/
   replyLen : Nat
-  /-- bytes after the reply head that the dialer reads and throws away as the reply's content:
-      `http.ReadResponse` honours a `Content-Length` on a 2xx reply to CONNECT and `connectHTTP`
-      closes that body, which drains it (0 when the upstream proxy sends no such field, as
-      RFC 9110 §9.3.6 demands of it) -/
-  replyBody : Nat := 0
   /-- most bytes one socket read of the reply reader returns (1: `byteReader`; 32 KiB: transport) -/
   replyGran : Nat
   /-- the reply reader's over-read is read first by the copier (`readWriteCloserBody`); otherwise
@@ -161,12 +162,12 @@ def step (c : Cfg) (s : State) : Step → Option State
         up := { s.up with taken := c.headLen + k, held := (s.up.written.drop c.headLen).take k } }
     else none
   | .replyRead n =>
-    if s.phase = .dialing ∧ s.down.taken < c.replyLen + c.replyBody ∧ 1 ≤ n ∧ n ≤ c.replyGran ∧
+    if s.phase = .dialing ∧ s.down.taken < c.replyLen ∧ 1 ≤ n ∧ n ≤ c.replyGran ∧
         s.down.taken + n ≤ s.down.written.length then
       some { s with down := { s.down with taken := s.down.taken + n } }
     else none
   | .connected =>
-    if s.phase = .dialing ∧ c.replyLen + c.replyBody ≤ s.down.taken then
+    if s.phase = .dialing ∧ c.replyLen ≤ s.down.taken then
       if c.replyKeep = true then
         some { s with
           phase := .replied
@@ -223,8 +224,10 @@ instance (s : State) (d : Dir) : Decidable (quiescent s d) := by
   unfold quiescent; exact inferInstance
 
 /-- the reply reader takes nothing of the tunnel with it: it keeps its over-read for the copier
-    (101 path), or it returns one byte per read (`byteReader`) and the reply declares no content -/
-def Cfg.replyExact (c : Cfg) : Prop := c.replyKeep = true ∨ (c.replyGran ≤ 1 ∧ c.replyBody = 0)
+    (101 path), or it returns one byte per read (`byteReader`).  Both readers the code has are of
+    one of these two kinds; nothing else about the reply matters (its fields do not: a 2xx reply to
+    CONNECT has no content) -/
+def Cfg.replyExact (c : Cfg) : Prop := c.replyKeep = true ∨ c.replyGran ≤ 1
 
 instance (c : Cfg) : Decidable c.replyExact := by unfold Cfg.replyExact; exact inferInstance
 
